@@ -2,6 +2,7 @@
 import json
 import os
 import re
+import time
 
 import plan
 import vcheck
@@ -115,6 +116,26 @@ def design_pass(ctx):
         if not exhaustive and not timed_out:
             raise vcheck.MachineryError("TLC design pass %s failed:\n%s" % (name, out[-2000:]))
     ctx.cov["exhaustive"] = all(p.get("exhaustive", True) for p in ctx.cov["passes"] if p["pass"].startswith("design:"))
+
+
+def proof_pass(ctx):
+    """Unbounded design-level results checked by the TLA+ proof system (tlapm): for C18 the theorem that the reconciler's verdict
+    rule admits at most one valid setting per node for every population (spec/SettingsProof.tla).  Like the TLC design passes
+    this speaks about the specification; the binding to the code is Conf_Setting on recorded reconciles."""
+    import subprocess, shutil
+    for mod in plan.PROOFS.get(ctx.pid, []):
+        d = os.path.join(ctx.work, "proof-" + mod)
+        os.makedirs(d, exist_ok=True)
+        shutil.copy(os.path.join(vcheck.SPEC, mod + ".tla"), d)
+        t0 = time.time()
+        try:
+            p = subprocess.run(["tlapm", "--threads", "8", mod + ".tla"], cwd=d, stdout=subprocess.PIPE, stderr=subprocess.STDOUT, text=True, timeout=600)
+        except subprocess.TimeoutExpired:
+            raise vcheck.MachineryError("tlapm timed out on %s" % mod)
+        m = re.search(r"All (\d+) obligations? proved", p.stdout)
+        if not m:
+            raise vcheck.MachineryError("tlapm did not prove %s:\n%s" % (mod, p.stdout[-1500:]))
+        ctx.cov["passes"].append({"pass": "tlaps:" + mod, "obligations_proved": int(m.group(1)), "wall_s": round(time.time() - t0, 1)})
 
 
 def action_coverage_pass(ctx):
@@ -389,6 +410,7 @@ def run_property(ctx):
     if ok:
         design_pass(ctx)
         liveness_pass(ctx)
+        proof_pass(ctx)
         action_coverage_pass(ctx)
     level = {"C11": "fault_enumeration", "C17": "other"}.get(ctx.pid, "model_checking")
     ctx.write_evidence(level, rule=plan.RULES["default"])
